@@ -1,7 +1,12 @@
-(* core/src/language/swift.rs, function by function. Output is text (str). *)
+(* core/src/language/swift.rs, function by function, in the shape  emit = render ∘ decls :
+   [sw_texp] / [sw_struct_of] / [sw_variant_of] / [sw_enum_of] / [sw_decl_of] take every decision
+   (names, prefix, keyword escapes, CodingKeys raw values, optional markers, decorators, generic
+   constraints, helper structs) and build abstract declarations; [sw_show] / [sw_render_*] print them
+   (fixed template text only); [sw_obs*] project them to the language-independent Model.Lang.Decl
+   view.  The text [sw_generate] produces is byte for byte what the Rust code writes. *)
 From Coq Require Import String.
 From TS Require Import Model.Str Model.Outcome Model.Unicode Model.Types Model.Parse Model.Rename
-                       Model.TopsortAlgo Model.Topsort Model.Lang.Common.
+                       Model.TopsortAlgo Model.Topsort Model.Lang.Common Model.Lang.Decl.
 
 (* swift.rs:137 the pub fields of `Swift` the CLI / harness set. `sw_default_generic_constraints` is
    the Vec<String> handed to GenericConstraints::from_config; `multi_file` is false here;
@@ -30,17 +35,19 @@ Definition SWIFT_KEYWORDS : list str :=
    lit "Any"; lit "catch"; lit "false"; lit "is"; lit "nil"; lit "super"; lit "self"; lit "Self";
    lit "throw"; lit "throws"; lit "true"; lit "try"; lit "Protocol"; lit "Type"].
 
+(* swift.rs:849 swift_keyword_aware_rename, the decision: escape or not ([sw_show_name] prints) *)
+Definition sw_is_keyword (name : str) : bool := mem_str name SWIFT_KEYWORDS.
+
 (* swift.rs:81 *)
 Definition sw_CODABLE : str := lit "Codable".
+(* the helper type standing for () (swift.rs:201, :793) and its doc line *)
+Definition sw_CODABLE_VOID : str := lit "CodableVoid".
+Definition sw_CODABLE_VOID_DOC : str := lit "() isn't codable, so we use this instead to represent Rust's unit type".
 
 Definition sw_nl : str := [ch_nl].
 Definition sw_tabs (n : nat) : str := repeat_str [ch_tab] n.
 (* "\n" + n tabs + s : one line of the multi-line format strings, which all START with a newline *)
 Definition sw_line (n : nat) (s : str) : str := sw_nl ++ sw_tabs n ++ s.
-
-(* swift.rs:849 swift_keyword_aware_rename *)
-Definition swift_keyword_aware_rename (name : str) : str :=
-  if mem_str name SWIFT_KEYWORDS then lit "`" ++ name ++ lit "`" else name.
 
 (* parser.rs:855 remove_dash_from_identifier *)
 Definition sw_remove_dash_from_identifier (name : str) : str := replace_char ch_dash ch_us name.
@@ -67,13 +74,316 @@ Fixpoint sw_assoc_last (k : str) (m : list (str * list str)) : option (list str)
 Definition sw_lift {A} (o : outcome A) : M sw_state A :=
   fun s => match o with Ok a => Ok (a, s) | Err e => Err e | Panic p => Panic p end.
 
-(* swift.rs:86 CodingKeysInfo *)
-Record sw_coding_keys_info := {
-  sw_decoding_cases : list str;
-  sw_encoding_cases : list str;
-  sw_coding_keys : list str
+(* ================= abstract declarations (what the decision layer produces) ================= *)
+
+(* a stored property of a struct *)
+Record sw_member := {
+  swm_docs : list str;           (* doc comment lines as printed (trailing white space removed) *)
+  swm_name : str;                (* the property identifier: renamed name with '-' replaced by '_', no backticks *)
+  swm_escaped : bool;            (* written in backticks where swift.rs escapes it (the renamed name is a keyword) *)
+  swm_coding_key : option str;   (* Some k: the CodingKeys case of this property needs the raw value k *)
+  swm_type : texp;               (* type of the stored property (first formatting, swift.rs:334) *)
+  swm_init_type : texp;          (* type of the init parameter (second formatting, swift.rs:369) *)
+  swm_default_opt : bool         (* "?" appended to both: #[serde(default)] on a type that is not Option *)
 }.
 
+(* `public struct`: a source struct, or the generated <Enum><Variant>Inner struct of a struct variant *)
+Record sw_struct := {
+  sws_docs : list str;
+  sws_name : str;                          (* prefix ++ renamed, no backticks *)
+  sws_escaped : bool;
+  sws_generics : list (str * list str);    (* generic parameter, its constraints *)
+  sws_decs : list str;                     (* the conformance list after ':' *)
+  sws_members : list sw_member;
+  sws_coding_keys : bool                   (* an explicit CodingKeys enum is required *)
+}.
+
+Inductive sw_payload :=
+| SWPUnit
+| SWPTuple (ty : texp) (ty_escaped : bool) (optional : bool)  (* optional: the decodeNil branch is generated *)
+| SWPInner (name : str) (generics : list str).                (* the helper struct as named AT THE REFERENCE *)
+
+Record sw_variant := {
+  swv_docs : list str;
+  swv_name : str;                (* case name, no backticks *)
+  swv_escaped : bool;
+  swv_raw : option str;          (* Some w: the raw value w is written out (it differs from the case name) *)
+  swv_payload : sw_payload       (* always SWPUnit in a String-backed (unit) enum *)
+}.
+
+Record sw_enum := {
+  swe_inner : list sw_struct;              (* helper structs written in front of the enum *)
+  swe_docs : list str;
+  swe_name : str;                          (* prefix ++ renamed, no backticks *)
+  swe_escaped : bool;
+  swe_indirect : bool;
+  swe_generics : list (str * list str);
+  swe_decs : list str;
+  swe_tagged : option (str * str);         (* None: String-backed enum; Some (tag, content): algebraic enum *)
+  swe_variants : list sw_variant
+}.
+
+Inductive sw_decl :=
+| SWStruct (s : sw_struct)
+| SWAlias (docs : list str) (name : str) (escaped : bool) (generics : list str) (ty : texp)
+| SWEnum (e : sw_enum)
+| SWCodableVoid (decs : list str).        (* the helper typeshare appends when () was translated *)
+
+(* ================= layout: printing of already decided pieces ================= *)
+
+(* target type expressions ([sw_texp] never builds XFixed; it would print as a tuple type) *)
+Fixpoint sw_show (x : texp) : str :=
+  match x with
+  | XName n [] => n
+  | XName n args => n ++ lit "<" ++ join (lit ", ") (map sw_show args) ++ lit ">"
+  | XSeq e => lit "[" ++ sw_show e ++ lit "]"
+  | XFixed es => lit "(" ++ join (lit ", ") (map sw_show es) ++ lit ")"
+  | XMap k v => lit "[" ++ sw_show k ++ lit ": " ++ sw_show v ++ lit "]"
+  | XOpt e => sw_show e ++ lit "?"
+  | XRaw t => t
+  end.
+
+(* an identifier with the escape decision taken (swift.rs:855 writes the backticks) *)
+Definition sw_show_name (name : str) (escaped : bool) : str :=
+  if escaped then lit "`" ++ name ++ lit "`" else name.
+(* swift.rs:849 swift_keyword_aware_rename = decision + printing *)
+Definition swift_keyword_aware_rename (name : str) : str := sw_show_name name (sw_is_keyword name).
+
+(* swift.rs:742 write_comment, :747 write_comments (the lines are already trimmed) *)
+Definition sw_render_comments (indent : nat) (docs : list str) : str :=
+  flat_map (fun c => sw_tabs indent ++ lit "/// " ++ c ++ sw_nl) docs.
+
+(* the `<T: Codable, ..>` part of a struct / enum header (swift.rs:305, :457) *)
+Definition sw_render_generic_header (gs : list (str * list str)) : str :=
+  match gs with
+  | [] => []
+  | _ => lit "<" ++ join (lit ", ") (map (fun g => fst g ++ lit ": " ++ join (lit " & ") (snd g)) gs) ++ lit ">"
+  end.
+
+(* swift.rs:356 / :469 the CodingKeys block *)
+Definition sw_render_coding_keys_block (coding_keys : list str) : str :=
+  sw_line 1 (lit "enum CodingKeys: String, CodingKey, Codable {") ++
+  sw_line 2 (lit "case " ++ join (lit "," ++ sw_nl ++ sw_tabs 3) coding_keys) ++
+  sw_line 1 (lit "}") ++ sw_nl.
+
+Definition sw_member_ident (m : sw_member) : str := sw_show_name (swm_name m) (swm_escaped m).
+Definition sw_member_opt (m : sw_member) : str := if swm_default_opt m then lit "?" else [].
+
+(* swift.rs:341 the stored property *)
+Definition sw_render_member (m : sw_member) : str :=
+  sw_render_comments 1 (swm_docs m) ++
+  sw_tabs 1 ++ lit "public let " ++ sw_member_ident m ++ lit ": " ++ sw_show (swm_type m) ++ sw_member_opt m ++ sw_nl.
+(* swift.rs:318-332 its CodingKeys case *)
+Definition sw_render_member_coding_key (m : sw_member) : str :=
+  match swm_coding_key m with
+  | Some k => sw_member_ident m ++ lit " = """ ++ k ++ lit """"
+  | None => sw_member_ident m
+  end.
+(* swift.rs:376 its init parameter *)
+Definition sw_render_init_param (m : sw_member) : str :=
+  swm_name m ++ lit ": " ++ sw_show (swm_init_type m) ++ sw_member_opt m.
+
+(* swift.rs:271 write_struct *)
+Definition sw_render_struct (s : sw_struct) : str :=
+  let nonempty := match sws_members s with [] => false | _ => true end in
+  sw_nl ++ sw_render_comments 0 (sws_docs s) ++
+  lit "public struct " ++ sw_show_name (sws_name s) (sws_escaped s) ++ sw_render_generic_header (sws_generics s) ++
+  lit ": " ++ join (lit ", ") (sws_decs s) ++ lit " {" ++ sw_nl ++
+  flat_map sw_render_member (sws_members s) ++
+  (if sws_coding_keys s then sw_render_coding_keys_block (map sw_render_member_coding_key (sws_members s)) else []) ++
+  (if nonempty then sw_nl else []) ++
+  sw_tabs 1 ++ lit "public init(" ++ join (lit ", ") (map sw_render_init_param (sws_members s)) ++ lit ") {" ++
+  flat_map (fun m => sw_line 2 (lit "self." ++ swm_name m ++ lit " = " ++ sw_member_ident m)) (sws_members s) ++
+  (if nonempty then sw_line 1 [] else []) ++
+  lit "}" ++ sw_nl ++
+  lit "}" ++ sw_nl.
+
+Definition sw_variant_ident (v : sw_variant) : str := sw_show_name (swv_name v) (swv_escaped v).
+
+(* swift.rs:557-574 one case of a String-backed enum *)
+Definition sw_render_unit_case (v : sw_variant) : str :=
+  sw_render_comments 1 (swv_docs v) ++
+  sw_tabs 1 ++ lit "case " ++ sw_variant_ident v ++
+  match swv_raw v with Some w => lit " = " ++ debug_str w | None => [] end ++ sw_nl.
+
+(* swift.rs:582-731 one variant of an algebraic enum: its case, *)
+Definition sw_render_case (v : sw_variant) : str :=
+  sw_render_comments 1 (swv_docs v) ++ sw_tabs 1 ++ lit "case " ++ sw_variant_ident v ++
+  match swv_payload v with
+  | SWPUnit => []
+  | SWPTuple ty esc _ => lit "(" ++ sw_show_name (sw_show ty) esc ++ lit ")"
+  | SWPInner name gs => lit "(" ++ name ++ generics_suffix gs ++ lit ")"
+  end ++ sw_nl.
+(* its CodingKeys case (swift.rs:602), *)
+Definition sw_render_coding_key (v : sw_variant) : str :=
+  match swv_raw v with
+  | Some w => sw_variant_ident v ++ lit " = """ ++ w ++ lit """"
+  | None => sw_variant_ident v
+  end.
+(* its branch of `switch type` in init(from:), which spells the content key 0 / 1 / 2 times, *)
+Definition sw_render_decoding (content_key : str) (v : sw_variant) : str :=
+  let name := swv_name v in
+  let content_decoding (case_type : str) : str :=
+    sw_line 4 (lit "if let content = try? container.decode(" ++ case_type ++ lit ".self, forKey: ." ++ content_key ++ lit ") {") ++
+    sw_line 5 (lit "self = ." ++ name ++ lit "(content)") ++
+    sw_line 5 (lit "return") ++
+    sw_line 4 (lit "}") in
+  match swv_payload v with
+  | SWPUnit =>
+    sw_line 3 (lit "case ." ++ name ++ lit ":") ++
+    sw_line 4 (lit "self = ." ++ name) ++
+    sw_line 4 (lit "return")
+  | SWPTuple ty esc optional =>
+    let case_type := sw_show_name (sw_show ty) esc in
+    if optional then
+      (* :642 this one line is indented with 12 spaces in the source *)
+      sw_nl ++ lit "            case ." ++ name ++ lit ":" ++
+      content_decoding case_type ++
+      sw_line 4 (lit "else if let isNil = try? container.decodeNil(forKey: ." ++ content_key ++ lit "), isNil {") ++
+      sw_line 5 (lit "self = ." ++ name ++ lit "(nil)") ++
+      sw_line 5 (lit "return") ++
+      sw_line 4 (lit "}")
+    else
+      sw_line 3 (lit "case ." ++ name ++ lit ":") ++ content_decoding case_type
+  | SWPInner inner gs =>
+    sw_line 3 (lit "case ." ++ name ++ lit ":") ++ content_decoding (inner ++ generics_suffix gs)
+  end.
+(* and its branch of `switch self` in encode(to:): the tag key once, the content key 0 / 1 times *)
+Definition sw_render_encoding (tag_key content_key : str) (v : sw_variant) : str :=
+  match swv_payload v with
+  | SWPUnit =>
+    sw_line 2 (lit "case ." ++ sw_variant_ident v ++ lit ":") ++
+    sw_line 3 (lit "try container.encode(CodingKeys." ++ sw_variant_ident v ++ lit ", forKey: ." ++ tag_key ++ lit ")")
+  | _ =>
+    sw_line 2 (lit "case ." ++ swv_name v ++ lit "(let content):") ++
+    sw_line 3 (lit "try container.encode(CodingKeys." ++ swv_name v ++ lit ", forKey: ." ++ tag_key ++ lit ")") ++
+    sw_line 3 (lit "try container.encode(content, forKey: ." ++ content_key ++ lit ")")
+  end.
+
+(* swift.rs:404 write_enum *)
+Definition sw_render_enum (e : sw_enum) : str :=
+  let enum_name := sw_show_name (swe_name e) (swe_escaped e) in
+  let vs := swe_variants e in
+  sw_nl ++ flat_map sw_render_struct (swe_inner e) ++ sw_render_comments 0 (swe_docs e) ++
+  lit "public " ++ (if swe_indirect e then lit "indirect " else []) ++ lit "enum " ++ enum_name ++
+  sw_render_generic_header (swe_generics e) ++ lit ": " ++ join (lit ", ") (swe_decs e) ++ lit " {" ++ sw_nl ++
+  match swe_tagged e with
+  | None => flat_map sw_render_unit_case vs
+  | Some (tag_key, content_key) =>
+    flat_map sw_render_case vs ++
+    (match vs with [] => [] | _ => sw_render_coding_keys_block (map sw_render_coding_key vs) end) ++
+    sw_line 1 (lit "private enum ContainerCodingKeys: String, CodingKey {") ++
+    sw_line 2 (lit "case " ++ tag_key ++ lit ", " ++ content_key) ++
+    sw_line 1 (lit "}") ++
+    sw_nl ++
+    sw_line 1 (lit "public init(from decoder: Decoder) throws {") ++
+    sw_line 2 (lit "let container = try decoder.container(keyedBy: ContainerCodingKeys.self)") ++
+    sw_line 2 (lit "if let type = try? container.decode(CodingKeys.self, forKey: ." ++ tag_key ++ lit ") {") ++
+    sw_line 3 (lit "switch type {" ++ flat_map (sw_render_decoding content_key) vs) ++
+    sw_line 3 (lit "}") ++
+    sw_line 2 (lit "}") ++
+    sw_line 2 (lit "throw DecodingError.typeMismatch(" ++ enum_name ++
+               lit ".self, DecodingError.Context(codingPath: decoder.codingPath, debugDescription: ""Wrong type for " ++
+               enum_name ++ lit """))") ++
+    sw_line 1 (lit "}") ++
+    sw_nl ++
+    sw_line 1 (lit "public func encode(to encoder: Encoder) throws {") ++
+    sw_line 2 (lit "var container = encoder.container(keyedBy: ContainerCodingKeys.self)") ++
+    sw_line 2 (lit "switch self {" ++ flat_map (sw_render_encoding tag_key content_key) vs) ++
+    sw_line 2 (lit "}") ++
+    sw_line 1 (lit "}") ++ sw_nl
+  end ++
+  lit "}" ++ sw_nl.
+
+Definition sw_render_decl (d : sw_decl) : str :=
+  match d with
+  | SWStruct s => sw_render_struct s
+  | SWAlias docs name escaped gs ty =>           (* swift.rs:246 write_type_alias *)
+    sw_nl ++ sw_render_comments 0 docs ++
+    lit "public typealias " ++ sw_show_name name escaped ++ generics_suffix gs ++ lit " = " ++ sw_show ty ++ sw_nl
+  | SWEnum e => sw_render_enum e
+  | SWCodableVoid decs =>                        (* swift.rs:782 get_codable_contents, :797 write_codable *)
+    sw_nl ++ sw_render_comments 0 [sw_CODABLE_VOID_DOC] ++
+    lit "public struct " ++ sw_CODABLE_VOID ++ lit ": " ++ join (lit ", ") decs ++ lit " {}" ++ sw_nl
+  end.
+
+(* ================= observation: the language-independent view ================= *)
+
+(* the optional idiom of Swift is a trailing `?` on the type *)
+Definition sw_is_opt (x : texp) : bool := match x with XOpt _ => true | _ => false end.
+Definition sw_strip_opt (x : texp) : texp := match x with XOpt e => e | _ => x end.
+
+(* A property `name: T?` is optional; its `?` is the one appended for #[serde(default)], or else the
+   outermost XOpt of the translated type (Rust Option<T>); the two never occur together.  mb_type is
+   the declared type with exactly that ONE outermost `?` removed (Option<Option<T>> -> `T??` is
+   reported as optional `T?`; a `?` inside a verbatim type override is not seen).  The JSON key is
+   the raw value of the property's CodingKeys case when one is written out, else the property name
+   (the implicit raw value of a CodingKeys case, or no CodingKeys enum at all). *)
+Definition sw_obs_member (m : sw_member) : member :=
+  {| mb_name := swm_name m; mb_escaped := swm_escaped m;
+     mb_key := match swm_coding_key m with Some k => k | None => swm_name m end;
+     mb_binding := match swm_coding_key m with Some _ => BCodingKey | None => BName end;
+     mb_optional := swm_default_opt m || sw_is_opt (swm_type m);
+     mb_type := if swm_default_opt m then swm_type m else sw_strip_opt (swm_type m);
+     mb_docs := swm_docs m |}.
+
+Definition sw_obs_struct (s : sw_struct) : decl :=
+  {| d_kind := DStruct; d_name := sws_name s; d_escaped := sws_escaped s; d_generics := map fst (sws_generics s);
+     d_docs := sws_docs s; d_members := map sw_obs_member (sws_members s); d_variants := [];
+     d_tag_keys := []; d_content_keys := []; d_type := None; d_value := None |}.
+
+(* the wire string of a case is its raw value: written out, or (Swift's rule for String raw values,
+   in a String-backed enum and in CodingKeys alike) the case name; a newtype payload `T?` is
+   reported as optional T; a struct payload refers to the helper by the name used in the case *)
+Definition sw_obs_variant (v : sw_variant) : variantd :=
+  {| vd_name := swv_name v;
+     vd_wire := match swv_raw v with Some w => w | None => swv_name v end;
+     vd_payload := match swv_payload v with
+                   | SWPUnit => PayUnit
+                   | SWPTuple ty _ _ => PayNewtype (sw_strip_opt ty) (sw_is_opt ty)
+                   | SWPInner name gs => PayRef name gs
+                   end;
+     vd_parent := None; vd_docs := swv_docs v |}.
+
+(* how often [sw_render_decoding] + [sw_render_encoding] spell the content key for one variant *)
+Definition sw_content_uses (v : sw_variant) : nat :=
+  match swv_payload v with
+  | SWPUnit => 0
+  | SWPTuple _ _ true => 3       (* decode, decodeNil, encode *)
+  | SWPTuple _ _ false => 2      (* decode, encode *)
+  | SWPInner _ _ => 2            (* decode, encode *)
+  end.
+
+Definition sw_obs_enum (e : sw_enum) : decl :=
+  {| d_kind := DEnum; d_name := swe_name e; d_escaped := swe_escaped e; d_generics := map fst (swe_generics e);
+     d_docs := swe_docs e; d_members := []; d_variants := map sw_obs_variant (swe_variants e);
+     (* ContainerCodingKeys, `forKey:` in init(from:), then one `forKey:` per variant in encode(to:) *)
+     d_tag_keys := match swe_tagged e with
+                   | None => []
+                   | Some (tag, _) => tag :: tag :: map (fun _ => tag) (swe_variants e)
+                   end;
+     (* ContainerCodingKeys, then per variant *)
+     d_content_keys := match swe_tagged e with
+                       | None => []
+                       | Some (_, content) =>
+                         content :: flat_map (fun v => repeat content (sw_content_uses v)) (swe_variants e)
+                       end;
+     d_type := None; d_value := None |}.
+
+(* the helper structs of an enum come out in front of it, as in the text *)
+Definition sw_obs (d : sw_decl) : list decl :=
+  match d with
+  | SWStruct s => [sw_obs_struct s]
+  | SWAlias docs name escaped gs ty =>
+    [{| d_kind := DAlias; d_name := name; d_escaped := escaped; d_generics := gs; d_docs := docs; d_members := [];
+        d_variants := []; d_tag_keys := []; d_content_keys := []; d_type := Some ty; d_value := None |}]
+  | SWEnum e => map sw_obs_struct (swe_inner e) ++ [sw_obs_enum e]
+  | SWCodableVoid _ =>
+    [{| d_kind := DHelper; d_name := sw_CODABLE_VOID; d_escaped := false; d_generics := []; d_docs := [sw_CODABLE_VOID_DOC];
+        d_members := []; d_variants := []; d_tag_keys := []; d_content_keys := []; d_type := None; d_value := None |}]
+  end.
+
+(* ================= decisions ================= *)
 Section SW.
 Variable uc : unicode.
 Variable cfg : sw_config.
@@ -81,6 +391,9 @@ Notation SM := (M sw_state).
 
 (* str::trim_end *)
 Definition sw_trim_end (s : str) : str := rev (trim_start uc (rev s)).
+
+(* the doc lines as write_comment prints them (swift.rs:743 comment.trim_end()) *)
+Definition sw_docs (comments : list str) : list str := map sw_trim_end comments.
 
 (* swift.rs:121 GenericConstraints::split_constraints *)
 Definition sw_split_constraints (constraints : str) : list str :=
@@ -94,8 +407,8 @@ Definition sw_get_constraints : list str := sw_from_config (sw_default_generic_c
 (* swift.rs:760 get_default_decorators *)
 Definition sw_get_default_decorators : list str := sw_CODABLE :: sw_default_decorators cfg.
 
-(* swift.rs:804 generic_constraints *)
-Definition sw_generic_constraints (decorator_map : decmap) (generic_types : list str) : str :=
+(* swift.rs:804 generic_constraints: every generic parameter with its constraints *)
+Definition sw_generic_constraints (decorator_map : decmap) (generic_types : list str) : list (str * list str) :=
   let annotated : list (str * list str) :=
     match sw_decs_get DKSwiftGenericConstraints decorator_map with
     | None => []
@@ -108,188 +421,137 @@ Definition sw_generic_constraints (decorator_map : decmap) (generic_types : list
                   | _ => []
                   end) generic_constraints
     end in
-  join (lit ", ")
-       (map (fun type_name =>
-               type_name ++ lit ": " ++
-               join (lit " & ") (match sw_assoc_last type_name annotated with
-                                 | Some constraints => constraints
-                                 | None => sw_get_constraints
-                                 end))
-            generic_types).
+  map (fun type_name =>
+         (type_name, match sw_assoc_last type_name annotated with
+                     | Some constraints => constraints
+                     | None => sw_get_constraints
+                     end))
+      generic_types.
 
-(* the `<T: Codable, ..>` part of a struct / enum header (swift.rs:305, :457) *)
-Definition sw_generic_header (decorator_map : decmap) (generic_types : list str) : str :=
-  match generic_types with
-  | [] => []
-  | _ => lit "<" ++ sw_generic_constraints decorator_map generic_types ++ lit ">"
-  end.
-
-(* swift.rs:742 write_comment, :747 write_comments *)
-Definition sw_write_comment (indent : nat) (comment : str) : str :=
-  sw_tabs indent ++ lit "/// " ++ sw_trim_end comment ++ sw_nl.
-Definition sw_write_comments (indent : nat) (comments : list str) : str :=
-  flat_map (sw_write_comment indent) comments.
-
-(* swift.rs:164 format_simple_type *)
-Definition sw_format_simple_type (base : str) (generic_types : list str) : str :=
+(* swift.rs:164 format_simple_type: mapped text, generic parameter, or PREFIXED user type
+   (mod.rs:242 format_generic_type appends the arguments to whatever this returns) *)
+Definition sw_simple_texp (base : str) (generic_types : list str) (args : list texp) : texp :=
   match tmap_get (sw_type_mappings cfg) base with
-  | Some mapped => mapped
-  | None => if mem_str base generic_types then base else sw_prefix cfg ++ base
+  | Some mapped => XRaw mapped
+  | None => XName (if mem_str base generic_types then base else sw_prefix cfg ++ base) args
   end.
 
-(* mod.rs:207 format_type, mod.rs:242 format_generic_type, swift.rs:178 format_special_type *)
-Fixpoint sw_format_type (generic_types : list str) (t : rtype) : SM str :=
+(* mod.rs:207 format_type, mod.rs:242 format_generic_type, swift.rs:178 format_special_type,
+   building the type as a tree; the text the Rust code builds is [sw_show] of it *)
+Fixpoint sw_texp (generic_types : list str) (t : rtype) : SM texp :=
   match t with
-  | RSimple id => ret (sw_format_simple_type id generic_types)
+  | RSimple id => ret (sw_simple_texp id generic_types [])
   | RGeneric id ps =>
     match tmap_get (sw_type_mappings cfg) id with
-    | Some mapped => ret mapped
+    | Some mapped => ret (XRaw mapped)               (* a mapped generic type drops its arguments *)
     | None =>
-      mdo parameters <- (fix go (l : list rtype) : SM (list str) :=
+      mdo parameters <- (fix go (l : list rtype) : SM (list texp) :=
                            match l with
                            | [] => ret []
-                           | x :: r => mdo y <- sw_format_type generic_types x; mdo ys <- go r; ret (y :: ys)
+                           | x :: r => mdo y <- sw_texp generic_types x; mdo ys <- go r; ret (y :: ys)
                            end) ps;
-      ret (sw_format_simple_type id generic_types ++
-           match parameters with [] => [] | _ => lit "<" ++ join (lit ", ") parameters ++ lit ">" end)
+      ret (sw_simple_texp id generic_types parameters)
     end
-  | RVec x | RArray x _ | RSlice x =>
-    mdo s <- sw_format_type generic_types x; ret (lit "[" ++ s ++ lit "]")
-  | ROption x => mdo s <- sw_format_type generic_types x; ret (s ++ lit "?")
+  | RVec x | RArray x _ | RSlice x => mdo e <- sw_texp generic_types x; ret (XSeq e)
+  | ROption x => mdo e <- sw_texp generic_types x; ret (XOpt e)
   | RHashMap k v =>
-    mdo ks <- sw_format_type generic_types k;
-    mdo vs <- sw_format_type generic_types v;
-    ret (lit "[" ++ ks ++ lit ": " ++ vs ++ lit "]")
+    mdo ke <- sw_texp generic_types k;
+    mdo ve <- sw_texp generic_types v;
+    ret (XMap ke ve)
   | RPrim p =>
     match p with
-    | PUnit => mdo _ <- mput true; ret (lit "CodableVoid")
-    | PString => ret (lit "String")
-    | PChar => ret (lit "Unicode.Scalar")
-    | PI8 => ret (lit "Int8")
-    | PU8 => ret (lit "UInt8")
-    | PI16 => ret (lit "Int16")
-    | PU16 => ret (lit "UInt16")
-    | PUSize => ret (lit "UInt")
-    | PISize => ret (lit "Int")
-    | PI32 => ret (lit "Int32")
-    | PU32 => ret (lit "UInt32")
-    | PI54 | PI64 => ret (lit "Int64")
-    | PU53 | PU64 => ret (lit "UInt64")
-    | PBool => ret (lit "Bool")
-    | PF32 => ret (lit "Float")
-    | PF64 => ret (lit "Double")
+    | PUnit => mdo _ <- mput true; ret (XName sw_CODABLE_VOID [])
+    | PString => ret (XName (lit "String") [])
+    | PChar => ret (XName (lit "Unicode.Scalar") [])
+    | PI8 => ret (XName (lit "Int8") [])
+    | PU8 => ret (XName (lit "UInt8") [])
+    | PI16 => ret (XName (lit "Int16") [])
+    | PU16 => ret (XName (lit "UInt16") [])
+    | PUSize => ret (XName (lit "UInt") [])
+    | PISize => ret (XName (lit "Int") [])
+    | PI32 => ret (XName (lit "Int32") [])
+    | PU32 => ret (XName (lit "UInt32") [])
+    | PI54 | PI64 => ret (XName (lit "Int64") [])
+    | PU53 | PU64 => ret (XName (lit "UInt64") [])
+    | PBool => ret (XName (lit "Bool") [])
+    | PF32 => ret (XName (lit "Float") [])
+    | PF64 => ret (XName (lit "Double") [])
     | PDateTime => fail (EUnsupportedSpecialType (rtype_display t))      (* swift.rs:220 *)
     end
   end.
 
-(* swift.rs:227 begin_file *)
-Definition sw_begin_file : str :=
-  (if sw_no_version_header cfg then []
-   else lit "/*" ++ sw_nl ++ lit " Generated by typeshare " ++ sw_version cfg ++ sw_nl ++ lit " */" ++ sw_nl ++ sw_nl) ++
-  lit "import Foundation" ++ sw_nl.
-
-(* swift.rs:782 get_codable_contents (decs always contains CODABLE, so the push never happens) *)
-Definition sw_get_codable_contents : str :=
-  let decs := sw_get_default_decorators ++ sw_codablevoid_constraints cfg in
-  let decs := if mem_str sw_CODABLE decs then decs else decs ++ [sw_CODABLE] in
-  sw_nl ++ lit "/// () isn't codable, so we use this instead to represent Rust's unit type" ++ sw_nl ++
-  lit "public struct CodableVoid: " ++ join (lit ", ") decs ++ lit " {}".
-
-(* swift.rs:238 end_file (multi_file = false), :797 write_codable *)
-Definition sw_end_file (st : sw_state) : str :=
-  if st then sw_get_codable_contents ++ sw_nl else [].
-
-(* swift.rs:246 write_type_alias *)
-Definition sw_write_type_alias (ty : ralias) : SM str :=
-  let type_name := swift_keyword_aware_rename (sw_prefix cfg ++ renamed (aid ty)) in
-  mdo t <- sw_format_type (agenerics ty) (atype ty);
-  ret (sw_nl ++ sw_write_comments 0 (acomments ty) ++
-       lit "public typealias " ++ type_name ++ generics_suffix (agenerics ty) ++ lit " = " ++ t ++ sw_nl).
-
-(* swift.rs:267 write_const *)
-Definition sw_write_const (c : rconst) : SM str := mpanic "swift.rs:268".
+Definition sw_format_type (generic_types : list str) (t : rtype) : SM str :=
+  mdo x <- sw_texp generic_types t; ret (sw_show x).
 
 (* swift.rs:334 / :369 the type of a field: override or format_type *)
-Definition sw_field_type (generic_types : list str) (f : rfield) : SM str :=
+Definition sw_field_texp (generic_types : list str) (f : rfield) : SM texp :=
   match type_override f Swift with
-  | Some type_override => ret type_override
-  | None => sw_format_type generic_types (fty f)
+  | Some type_override => ret (XRaw type_override)
+  | None => sw_texp generic_types (fty f)
   end.
 
-(* swift.rs:356 / :469 the CodingKeys block (written when there is something to write) *)
-Definition sw_coding_keys_block (coding_keys : list str) : str :=
-  sw_line 1 (lit "enum CodingKeys: String, CodingKey, Codable {") ++
-  sw_line 2 (lit "case " ++ join (lit "," ++ sw_nl ++ sw_tabs 3) coding_keys) ++
-  sw_line 1 (lit "}") ++ sw_nl.
+(* swift.rs:311-350 / :368-394 what is decided about one field, given its two formatted types.
+   remove_dash_from_identifier(swift_keyword_aware_rename(renamed)) = the name below in backticks
+   when the renamed name is a keyword (no keyword contains '-'), else the name below *)
+Definition sw_member_of (f : rfield) (ty init_ty : texp) : sw_member :=
+  let key := renamed (fid f) in
+  {| swm_docs := sw_docs (fcomments f);
+     swm_name := sw_remove_dash_from_identifier key;
+     swm_escaped := sw_is_keyword key;
+     swm_coding_key := if contains_char ch_dash key then Some key else None;
+     swm_type := ty;
+     swm_init_type := init_ty;
+     swm_default_opt := has_default f && negb (is_optional (fty f)) |}.
 
 (* swift.rs:271 write_struct *)
-Definition sw_write_struct (rs : rstruct) : SM str :=
-  let type_name := swift_keyword_aware_rename (sw_prefix cfg ++ renamed (sid rs)) in
-  let decs := join (lit ", ")
-                   match sw_decs_get DKSwift (sdecs rs) with
-                   | Some swift_decs =>
-                     sw_get_default_decorators ++ filter (fun d => negb (str_eqb d sw_CODABLE)) swift_decs
-                   | None => sw_get_default_decorators
-                   end in
-  let has_dash (f : rfield) := contains_char ch_dash (renamed (fid f)) in
-  let ident (f : rfield) := sw_remove_dash_from_identifier (swift_keyword_aware_rename (renamed (fid f))) in
-  let plain (f : rfield) := sw_remove_dash_from_identifier (renamed (fid f)) in
-  let opt (f : rfield) := if has_default f && negb (is_optional (fty f)) then lit "?" else [] in
+Definition sw_struct_of (rs : rstruct) : SM sw_struct :=
+  let type_name := sw_prefix cfg ++ renamed (sid rs) in
   (* :311 first loop over the fields *)
-  mdo fields <- mconcat (fun f =>
-                           mdo case_type <- sw_field_type (sgenerics rs) f;
-                           ret (sw_write_comments 1 (fcomments f) ++
-                                sw_tabs 1 ++ lit "public let " ++ ident f ++ lit ": " ++ case_type ++ opt f ++ sw_nl))
-                        (sfields rs);
-  let coding_keys := map (fun f => if has_dash f then ident f ++ lit " = """ ++ renamed (fid f) ++ lit """"
-                                   else ident f) (sfields rs) in
-  let should_write_coding_keys := existsb has_dash (sfields rs) in
+  mdo tys <- mmapM (sw_field_texp (sgenerics rs)) (sfields rs);
   (* :368 second loop: the types are formatted a second time *)
-  mdo init_params <- mmapM (fun f =>
-                              mdo swift_ty <- sw_field_type (sgenerics rs) f;
-                              ret (plain f ++ lit ": " ++ swift_ty ++ opt f))
-                           (sfields rs);
-  let nonempty := match sfields rs with [] => false | _ => true end in
-  ret (sw_nl ++ sw_write_comments 0 (scomments rs) ++
-       lit "public struct " ++ type_name ++ sw_generic_header (sdecs rs) (sgenerics rs) ++ lit ": " ++ decs ++
-       lit " {" ++ sw_nl ++
-       fields ++
-       (if should_write_coding_keys then sw_coding_keys_block coding_keys else []) ++
-       (if nonempty then sw_nl else []) ++
-       sw_tabs 1 ++ lit "public init(" ++ join (lit ", ") init_params ++ lit ") {" ++
-       flat_map (fun f => sw_line 2 (lit "self." ++ plain f ++ lit " = " ++ ident f)) (sfields rs) ++
-       (if nonempty then sw_line 1 [] else []) ++
-       lit "}" ++ sw_nl ++
-       lit "}" ++ sw_nl).
+  mdo init_tys <- mmapM (sw_field_texp (sgenerics rs)) (sfields rs);
+  ret {| sws_docs := sw_docs (scomments rs);
+         sws_name := type_name;
+         sws_escaped := sw_is_keyword type_name;
+         sws_generics := sw_generic_constraints (sdecs rs) (sgenerics rs);
+         sws_decs := match sw_decs_get DKSwift (sdecs rs) with
+                     | Some swift_decs =>
+                       sw_get_default_decorators ++ filter (fun d => negb (str_eqb d sw_CODABLE)) swift_decs
+                     | None => sw_get_default_decorators
+                     end;
+         sws_members := map (fun x => sw_member_of (fst x) (fst (snd x)) (snd (snd x)))
+                            (combine (sfields rs) (combine tys init_tys));
+         sws_coding_keys := existsb (fun f => contains_char ch_dash (renamed (fid f))) (sfields rs) |}.
 
 (* swift.rs:440 make_anonymous_struct_name *)
 Definition sw_make_anonymous_struct_name (shared : eshared) (variant_name : str) : str :=
   renamed (eid shared) ++ variant_name ++ lit "Inner".
 
-(* mod.rs:366 write_types_for_anonymous_structs *)
-Definition sw_write_types_for_anonymous_structs (shared : eshared) : SM str :=
-  mconcat (fun v =>
-             match v with
-             | VAnon fields vsh =>
-               sw_write_struct (anon_struct shared (sw_make_anonymous_struct_name shared (original (vid vsh)))
-                                            (original (vid vsh)) fields)
-             | _ => ret []
-             end) (evariants shared).
+(* mod.rs:366 write_types_for_anonymous_structs: the helper struct of every struct variant, DEFINED
+   through write_struct under  keyword_aware(prefix ++ make_anonymous_struct_name(original)) *)
+Fixpoint sw_inner_structs_of (shared : eshared) (vs : list rvariant) : SM (list sw_struct) :=
+  match vs with
+  | [] => ret []
+  | VAnon fields vsh :: r =>
+    mdo s <- sw_struct_of (anon_struct shared (sw_make_anonymous_struct_name shared (original (vid vsh)))
+                                       (original (vid vsh)) fields);
+    mdo ss <- sw_inner_structs_of shared r;
+    ret (s :: ss)
+  | _ :: r => sw_inner_structs_of shared r
+  end.
 
 (* swift.rs:557-574 one variant of a unit enum *)
-Definition sw_write_unit_variant (v : rvariant) : SM str :=
+Definition sw_unit_variant_of (v : rvariant) : SM sw_variant :=
   let vsh := variant_shared v in
   mdo variant_name <- sw_lift (to_camel_case (original (vid vsh)));
-  ret (sw_write_comments 1 (vcomments vsh) ++
-       if str_eqb (renamed (vid vsh)) variant_name
-       then sw_tabs 1 ++ lit "case " ++ swift_keyword_aware_rename variant_name ++ sw_nl
-       else sw_tabs 1 ++ lit "case " ++ swift_keyword_aware_rename variant_name ++ lit " = " ++
-            debug_str (renamed (vid vsh)) ++ sw_nl).
+  ret {| swv_docs := sw_docs (vcomments vsh);
+         swv_name := variant_name;
+         swv_escaped := sw_is_keyword variant_name;
+         swv_raw := if str_eqb (renamed (vid vsh)) variant_name then None else Some (renamed (vid vsh));
+         swv_payload := SWPUnit |}.
 
-(* swift.rs:582-731 one variant of an algebraic enum:
-   (text written, decoding case, encoding case, coding key) *)
-Definition sw_write_algebraic_variant (tag_key content_key : str) (shared : eshared) (v : rvariant)
-  : SM (str * (str * str * str)) :=
+(* swift.rs:582-731 one variant of an algebraic enum *)
+Definition sw_variant_of (shared : eshared) (v : rvariant) : SM sw_variant :=
   let vsh := variant_shared v in
   let generics := egenerics shared in
   mdo camel <- sw_lift (to_camel_case (original (vid vsh)));
@@ -297,65 +559,23 @@ Definition sw_write_algebraic_variant (tag_key content_key : str) (shared : esha
                       | c :: _ => if is_adigit c then lit "_" ++ camel else camel
                       | [] => camel
                       end in
-  let kw_name := swift_keyword_aware_rename variant_name in
-  let coding_key := if str_eqb variant_name (renamed (vid vsh)) then kw_name
-                    else kw_name ++ lit " = """ ++ renamed (vid vsh) ++ lit """" in
-  let head := sw_write_comments 1 (vcomments vsh) ++ sw_tabs 1 ++ lit "case " ++ kw_name in
-  let content_decoding (case_type : str) : str :=
-    sw_line 4 (lit "if let content = try? container.decode(" ++ case_type ++ lit ".self, forKey: ." ++ content_key ++ lit ") {") ++
-    sw_line 5 (lit "self = ." ++ variant_name ++ lit "(content)") ++
-    sw_line 5 (lit "return") ++
-    sw_line 4 (lit "}") in
-  let content_encoding : str :=
-    sw_line 2 (lit "case ." ++ variant_name ++ lit "(let content):") ++
-    sw_line 3 (lit "try container.encode(CodingKeys." ++ variant_name ++ lit ", forKey: ." ++ tag_key ++ lit ")") ++
-    sw_line 3 (lit "try container.encode(content, forKey: ." ++ content_key ++ lit ")") in
-  match v with
-  | VUnit _ =>
-    ret (head ++ sw_nl,
-         (sw_line 3 (lit "case ." ++ variant_name ++ lit ":") ++
-          sw_line 4 (lit "self = ." ++ variant_name) ++
-          sw_line 4 (lit "return"),
-          sw_line 2 (lit "case ." ++ kw_name ++ lit ":") ++
-          sw_line 3 (lit "try container.encode(CodingKeys." ++ kw_name ++ lit ", forKey: ." ++ tag_key ++ lit ")"),
-          coding_key))
-  | VTuple ty _ =>
-    mdo case_type <- sw_format_type generics ty;
-    let case_type := swift_keyword_aware_rename case_type in
-    let decoding :=
-      if is_optional ty then
-        (* :642 this one line is indented with 12 spaces in the source *)
-        sw_nl ++ lit "            case ." ++ variant_name ++ lit ":" ++
-        content_decoding case_type ++
-        sw_line 4 (lit "else if let isNil = try? container.decodeNil(forKey: ." ++ content_key ++ lit "), isNil {") ++
-        sw_line 5 (lit "self = ." ++ variant_name ++ lit "(nil)") ++
-        sw_line 5 (lit "return") ++
-        sw_line 4 (lit "}")
-      else
-        sw_line 3 (lit "case ." ++ variant_name ++ lit ":") ++ content_decoding case_type in
-    ret (head ++ lit "(" ++ case_type ++ lit ")" ++ sw_nl, (decoding, content_encoding, coding_key))
-  | VAnon fields vsh' =>
-    let anonymous_struct_name := sw_prefix cfg ++ sw_make_anonymous_struct_name shared (original (vid vsh')) in
-    let generic_types := generics_suffix (anon_struct_generics generics fields) in
-    ret (head ++ lit "(" ++ anonymous_struct_name ++ generic_types ++ lit ")" ++ sw_nl,
-         (sw_line 3 (lit "case ." ++ variant_name ++ lit ":") ++
-          content_decoding (anonymous_struct_name ++ generic_types),
-          content_encoding, coding_key))
-  end.
-
-(* swift.rs:546 write_enum_variants *)
-Definition sw_write_enum_variants (e : renum) : SM (str * sw_coding_keys_info) :=
-  match e with
-  | EUnit shared =>
-    mdo text <- mconcat sw_write_unit_variant (evariants shared);
-    ret (text, {| sw_decoding_cases := []; sw_encoding_cases := []; sw_coding_keys := [] |})
-  | EAlgebraic tag_key content_key shared =>
-    mdo rs <- mmapM (sw_write_algebraic_variant tag_key content_key shared) (evariants shared);
-    ret (flat_map fst rs,
-         {| sw_decoding_cases := map (fun r => fst (fst (snd r))) rs;
-            sw_encoding_cases := map (fun r => snd (fst (snd r))) rs;
-            sw_coding_keys := map (fun r => snd (snd r)) rs |})
-  end.
+  mdo payload <- match v with
+                 | VUnit _ => ret SWPUnit
+                 | VTuple ty _ =>
+                   mdo case_type <- sw_texp generics ty;
+                   (* :637 swift_keyword_aware_rename(&case_type) looks at the printed type *)
+                   ret (SWPTuple case_type (sw_is_keyword (sw_show case_type)) (is_optional ty))
+                 | VAnon fields vsh' =>
+                   (* :680 the helper struct as REFERRED to:  prefix ++ make_anonymous_struct_name(original)
+                      without keyword escape; :689 its generic arguments *)
+                   ret (SWPInner (sw_prefix cfg ++ sw_make_anonymous_struct_name shared (original (vid vsh')))
+                                 (anon_struct_generics generics fields))
+                 end;
+  ret {| swv_docs := sw_docs (vcomments vsh);
+         swv_name := variant_name;
+         swv_escaped := sw_is_keyword variant_name;
+         swv_raw := if str_eqb variant_name (renamed (vid vsh)) then None else Some (renamed (vid vsh));
+         swv_payload := payload |}.
 
 (* swift.rs:407 determine_decorators *)
 Definition sw_determine_decorators (always_present : list str) (e : renum) : list str :=
@@ -365,57 +585,65 @@ Definition sw_determine_decorators (always_present : list str) (e : renum) : lis
   | None => []
   end.
 
-(* swift.rs:404 write_enum *)
-Definition sw_write_enum (e : renum) : SM str :=
+(* swift.rs:404 write_enum, :546 write_enum_variants *)
+Definition sw_enum_of (e : renum) : SM sw_enum :=
   let shared := enum_shared e in
-  let enum_name := swift_keyword_aware_rename (sw_prefix cfg ++ renamed (eid shared)) in
+  let enum_name := sw_prefix cfg ++ renamed (eid shared) in
   let always_present := match e with
                         | EUnit _ => lit "String" :: sw_get_default_decorators
                         | EAlgebraic _ _ _ => sw_get_default_decorators
                         end in
-  let decs := join (lit ", ") (sw_determine_decorators always_present e) in
-  mdo anon <- sw_write_types_for_anonymous_structs shared;
-  let indirect := if erecursive shared then lit "indirect " else [] in
-  mdo vi <- sw_write_enum_variants e;
-  let '(variants, info) := vi in
-  ret (sw_nl ++ anon ++ sw_write_comments 0 (ecomments shared) ++
-       lit "public " ++ indirect ++ lit "enum " ++ enum_name ++
-       sw_generic_header (edecs shared) (egenerics shared) ++ lit ": " ++ decs ++ lit " {" ++ sw_nl ++
-       variants ++
-       (match sw_coding_keys info with [] => [] | ks => sw_coding_keys_block ks end) ++
-       (match e with
-        | EUnit _ => []
-        | EAlgebraic tag_key content_key _ =>
-          sw_line 1 (lit "private enum ContainerCodingKeys: String, CodingKey {") ++
-          sw_line 2 (lit "case " ++ tag_key ++ lit ", " ++ content_key) ++
-          sw_line 1 (lit "}") ++
-          sw_nl ++
-          sw_line 1 (lit "public init(from decoder: Decoder) throws {") ++
-          sw_line 2 (lit "let container = try decoder.container(keyedBy: ContainerCodingKeys.self)") ++
-          sw_line 2 (lit "if let type = try? container.decode(CodingKeys.self, forKey: ." ++ tag_key ++ lit ") {") ++
-          sw_line 3 (lit "switch type {" ++ List.concat (sw_decoding_cases info)) ++
-          sw_line 3 (lit "}") ++
-          sw_line 2 (lit "}") ++
-          sw_line 2 (lit "throw DecodingError.typeMismatch(" ++ enum_name ++
-                     lit ".self, DecodingError.Context(codingPath: decoder.codingPath, debugDescription: ""Wrong type for " ++
-                     enum_name ++ lit """))") ++
-          sw_line 1 (lit "}") ++
-          sw_nl ++
-          sw_line 1 (lit "public func encode(to encoder: Encoder) throws {") ++
-          sw_line 2 (lit "var container = encoder.container(keyedBy: ContainerCodingKeys.self)") ++
-          sw_line 2 (lit "switch self {" ++ List.concat (sw_encoding_cases info)) ++
-          sw_line 2 (lit "}") ++
-          sw_line 1 (lit "}") ++ sw_nl
-        end) ++
-       lit "}" ++ sw_nl).
+  mdo inner <- sw_inner_structs_of shared (evariants shared);
+  mdo vs <- match e with
+            | EUnit sh => mmapM sw_unit_variant_of (evariants sh)
+            | EAlgebraic _ _ sh => mmapM (sw_variant_of sh) (evariants sh)
+            end;
+  ret {| swe_inner := inner;
+         swe_docs := sw_docs (ecomments shared);
+         swe_name := enum_name;
+         swe_escaped := sw_is_keyword enum_name;
+         swe_indirect := erecursive shared;
+         swe_generics := sw_generic_constraints (edecs shared) (egenerics shared);
+         swe_decs := sw_determine_decorators always_present e;
+         swe_tagged := match e with
+                       | EUnit _ => None
+                       | EAlgebraic tag_key content_key _ => Some (tag_key, content_key)
+                       end;
+         swe_variants := vs |}.
 
-Definition sw_write_item (it : ritem) : SM str :=
+Definition sw_decl_of (it : ritem) : SM sw_decl :=
   match it with
-  | ItEnum e => sw_write_enum e
-  | ItStruct s => sw_write_struct s
-  | ItAlias a => sw_write_type_alias a
-  | ItConst c => sw_write_const c
+  | ItEnum e => mdo d <- sw_enum_of e; ret (SWEnum d)
+  | ItStruct s => mdo d <- sw_struct_of s; ret (SWStruct d)
+  | ItAlias ty =>                                                  (* swift.rs:246 write_type_alias *)
+    let type_name := sw_prefix cfg ++ renamed (aid ty) in
+    mdo t <- sw_texp (agenerics ty) (atype ty);
+    ret (SWAlias (sw_docs (acomments ty)) type_name (sw_is_keyword type_name) (agenerics ty) t)
+  | ItConst c => mpanic "swift.rs:268"                             (* swift.rs:267 write_const: todo!() *)
   end.
+
+(* swift.rs:782 get_codable_contents (decs always contains CODABLE, so the push never happens) *)
+Definition sw_codable_void : sw_decl :=
+  let decs := sw_get_default_decorators ++ sw_codablevoid_constraints cfg in
+  SWCodableVoid (if mem_str sw_CODABLE decs then decs else decs ++ [sw_CODABLE]).
+
+(* the helper declarations end_file appends (swift.rs:238, multi_file = false) *)
+Definition sw_trailing_decls (st : sw_state) : list sw_decl := if st then [sw_codable_void] else [].
+
+(* ================= the writers = render of the declaration ================= *)
+
+(* write_struct / write_enum / write_type_alias / write_const *)
+Definition sw_write_item (it : ritem) : SM str :=
+  mdo d <- sw_decl_of it; ret (sw_render_decl d).
+
+(* swift.rs:227 begin_file *)
+Definition sw_begin_file : str :=
+  (if sw_no_version_header cfg then []
+   else lit "/*" ++ sw_nl ++ lit " Generated by typeshare " ++ sw_version cfg ++ sw_nl ++ lit " */" ++ sw_nl ++ sw_nl) ++
+  lit "import Foundation" ++ sw_nl.
+
+(* swift.rs:238 end_file (multi_file = false), :797 write_codable *)
+Definition sw_end_file (st : sw_state) : str := flat_map sw_render_decl (sw_trailing_decls st).
 
 (* Language::generate_types (mod.rs:160), single-file (no imports) *)
 Definition sw_generate (pd : parsed) : outcome str :=
@@ -425,4 +653,18 @@ Definition sw_generate (pd : parsed) : outcome str :=
   | Err e => Err e
   | Panic p => Panic p
   end.
+
+(* the declarations of a whole file in output order, and the final state *)
+Definition sw_decls (pd : parsed) : outcome (list sw_decl * sw_state) :=
+  do items <- topsort (items_of pd);
+  mmapM sw_decl_of items false.
+
+Definition sw_file_decls (pd : parsed) : outcome file_decls :=
+  do r <- sw_decls pd;
+  let '(ds, st) := r in
+  Ok {| fd_header := (if sw_no_version_header cfg then [] else [lit "Generated by typeshare " ++ sw_version cfg]) ++
+                     [lit "import Foundation"];
+        fd_imports := [lit "Foundation"];
+        fd_decls := flat_map sw_obs (ds ++ sw_trailing_decls st);
+        fd_helper_defs := if st then [sw_CODABLE_VOID] else [] |}.
 End SW.
